@@ -266,7 +266,7 @@ def registry_lines() -> list[str]:
     names = [n for n in dir(builtins)]
     lines = ["json.builtins " + " ".join(tok(n) for n in names)]
     for e in CT.ENUMS:
-        native = issubclass(e, (int, str))
+        native = issubclass(e, (int, str, float))
         members = "L%d;" % len(list(e)) + "".join(to_tree(m.value) for m in e)
         lines.append(f"json.class {tok(e.__module__)} {tok(e.__qualname__)} enum{'1' if native else '0'} {members}")
     for c in CT.EXCS:
